@@ -296,9 +296,9 @@ func (c *Ctx) RuleSiblingRuleId() *Result {
 					} else {
 						res.bad(key, c.P.InstrPos(call), "the chain offset handed on is not the result of the guarded 8-bit parse")
 					}
-				case *ssa.UnOp:
-					if fa, ok := x.X.(*ssa.FieldAddr); ok {
-						if _, isG := fa.X.(*ssa.Global); isG {
+				case *ssa.UnOp, *ssa.Field:
+					if _, _, isG := c.globalFieldLoad(a, fn); isG {
+						{
 							handedIn := ""
 							for _, q := range fn.Params {
 								if b, ok := q.Type().Underlying().(*types.Basic); ok && b.Kind() == types.Uint8 {
@@ -526,12 +526,35 @@ func (c *Ctx) RuleSiblingLocator() *Result {
 				}
 			}
 		})
+		locFn, locTo := s.fn, ssa.Instruction(s.call)
+		// the match may sit in a helper that is handed one line: the locator then is the caller's,
+		// from its split to the call of the helper (two levels)
+		for lift := 0; split == nil && lift < 2; lift++ {
+			var callers []ssa.Instruction
+			for _, e := range c.Graph().In[locFn] {
+				if cc := callCommon(e.Site); cc != nil && staticFn(cc) == locFn && c.liveFn(e.Caller) {
+					callers = append(callers, e.Site)
+				}
+			}
+			if len(callers) != 1 {
+				break
+			}
+			locFn, locTo = callers[0].Parent(), callers[0]
+			allInstrs(locFn, func(in ssa.Instruction) {
+				if call, ok := in.(*ssa.Call); ok {
+					f := staticCallee(&call.Call)
+					if (isFn(f, "bytes", "Split") || isFn(f, "strings", "Split")) && instrDominates(call, locTo) {
+						split = call
+					}
+				}
+			})
+		}
 		if split == nil {
 			res.Instances++
 			res.undecided(load.FnName(s.fn)+":operand locator", c.P.InstrPos(s.call), "the rule line is matched but no split into lines dominates the match: locator shape not recognised")
 			continue
 		}
-		locs = append(locs, loc{fn: s.fn, from: split, to: s.call})
+		locs = append(locs, loc{fn: locFn, from: split, to: locTo})
 	}
 	if len(locs) < 2 {
 		res.Instances++
@@ -956,6 +979,10 @@ func (c *Ctx) RuleCompareVerdict() *Result {
 				if cc == nil {
 					continue
 				}
+				// a call that hands the same value in for both sides has decided the verdict before the comparison
+				if ix, iy := paramIndex(fn, px), paramIndex(fn, py); ix >= 0 && iy >= 0 && ix < len(cc.Args) && iy < len(cc.Args) && staticFn(cc) == fn && cc.Args[ix] == cc.Args[iy] {
+					problems = append(problems, fmt.Sprintf("the call at %s compares a value with itself: whatever decided to make that call (a shortcut that found the expression somewhere in the file) is the verdict, not the byte equality of the addressed rule's operand and the generated regex", c.P.InstrPos(e.Site)))
+				}
 				for _, p := range []*ssa.Parameter{px, py} {
 					idx := -1
 					for i, q := range fn.Params {
@@ -967,6 +994,11 @@ func (c *Ctx) RuleCompareVerdict() *Result {
 						continue
 					}
 					a := cc.Args[idx]
+					if ex, isEx := a.(*ssa.Extract); isEx && ex.Index == 0 {
+						if tc, isCall := ex.Tuple.(*ssa.Call); isCall {
+							a = tc // the first result of a (string, error) helper
+						}
+					}
 					switch x := a.(type) {
 					case *ssa.Parameter:
 					case *ssa.Call:
